@@ -23,7 +23,8 @@ impl Parser {
         let expr = self.or_expr()?;
 
         if self.match_token(&TokenKind::Eq) {
-            let value = self.assignment()?;
+            // right-recursive: `a = a = a = ...` nests one level per `=`
+            let value = self.nested(Self::assignment)?;
 
             if let ExprKind::Identifier(name) = expr.kind {
                 let span = expr.span.merge(value.span);
@@ -59,7 +60,7 @@ impl Parser {
 
         // compound assignment: x += y → x = x + y
         if let Some(op) = self.match_compound_assign() {
-            let rhs = self.assignment()?;
+            let rhs = self.nested(Self::assignment)?;
 
             if let ExprKind::Identifier(ref name) = expr.kind {
                 let binary = Expr::new(
